@@ -51,13 +51,17 @@ LoadOk(e) == LET s == LoadState(ExpOrigin(e), e.words)
                  /\ MemEq(MemOfList(e.mem), s.mem)
                  /\ e.orig = ExpOrigin(e)
                  /\ LoaderAccepts(e.orig, Len(e.words))
+                 (* C11: the breakpoints the debugger starts with are the .break directives of the source, at origin + line *)
+                 /\ ("bps0" \in DOMAIN e =>
+                       { e.bps0[k] : k \in 1 .. Len(e.bps0) } = { ExpOrigin(e) + b : b \in Asm!Breaks(e.ast) })
 TLoad ==
   /\ l <= NRec /\ Ev.ev = "load"
   /\ LET s == [reg |-> RegOf(Ev.reg), pc |-> Ev.pc, cc |-> Ev.cc, mem |-> MemOfList(Ev.mem)] IN
      /\ st' = s /\ initial' = s
      /\ orig' = Ev.orig /\ stackOn' = Ev.stack /\ inp' = Ev.inb /\ run' = "running" /\ lastOut' = << >>
      /\ attached' = Ev.att /\ status' = Wait /\ cur' = -1 /\ icount' = 0 /\ phase' = "top"
-     /\ bps' = { Ev.orig + Ev.brk[k] : k \in 1 .. Len(Ev.brk) }
+     /\ bps' = IF "bps0" \in DOMAIN Ev THEN { Ev.bps0[k] : k \in 1 .. Len(Ev.bps0) }
+                ELSE { (Ev.orig + Ev.brk[k]) % 65536 : k \in 1 .. Len(Ev.brk) }
      /\ syms' = SymOfList(Ev.syms) /\ texts' = SymOfList(Ev.texts)
      /\ tags' = << >> /\ text' = << >> /\ iter' = 0 /\ nExec' = 0 /\ nCmd' = 0
      /\ pure' = Ev.pure /\ taint' = FALSE
